@@ -272,42 +272,37 @@ theorem posting_range_mem {j : Journal} {tx : Transaction} {p : Posting} (h : tx
   exact Or.inr ⟨p, hp, hr⟩
 
 /-- A located element either was computed by column arithmetic (payee estimate, the two halves
-    of a tag) or carries a range stored in the tree. -/
-def hitNode (j : Journal) (h : Hit) : Prop :=
-  h.kind = .payee ∨ h.kind = .tag ∨ h.kind = .tagValue ∨ h.rng ∈ nodeRanges j
+    of a tag, a `nameRange`) or carries a range stored in the tree. -/
+def hitNode (j : Journal) (h : Hit) : Prop := h.derived = true ∨ h.rng ∈ nodeRanges j
 
-theorem findTag_kind {tags : List Tag} {c : Cur} {h : Hit} (hh : findTagAtPosition tags c = some h) :
-    h.kind = .tag ∨ h.kind = .tagValue := by
+theorem findTag_derived {tags : List Tag} {c : Cur} {h : Hit} (hh : findTagAtPosition tags c = some h) :
+    h.derived = true := by
   unfold findTagAtPosition at hh
   split at hh
   · simp at hh
   · simp only at hh
-    split at hh <;> (simp at hh; subst hh; simp)
+    split at hh <;> (simp at hh; subst hh; rfl)
 
 theorem hoverPosting_node {j : Journal} {tx : Transaction} {p : Posting} {c : Cur} {h : Hit}
     (ht : tx ∈ j.transactions) (hp : p ∈ tx.postings) (hh : hoverPosting c p = some h) : hitNode j h := by
   unfold hoverPosting at hh
   split at hh
   · simp at hh; subst hh
-    exact Or.inr (Or.inr (Or.inr (posting_range_mem ht hp (by simp [postingRanges]))))
+    exact Or.inr (posting_range_mem ht hp (by simp [postingRanges]))
   · split at hh
     · rename_i a ha
       split at hh
       · simp at hh; subst hh
-        exact Or.inr (Or.inr (Or.inr (posting_range_mem ht hp (by simp [postingRanges, ha, amountRanges]))))
-      · rcases findTag_kind hh with h1 | h1
-        · exact Or.inr (Or.inl h1)
-        · exact Or.inr (Or.inr (Or.inl h1))
-    · rcases findTag_kind hh with h1 | h1
-      · exact Or.inr (Or.inl h1)
-      · exact Or.inr (Or.inr (Or.inl h1))
+        exact Or.inr (posting_range_mem ht hp (by simp [postingRanges, ha, amountRanges]))
+      · exact Or.inl (findTag_derived hh)
+    · exact Or.inl (findTag_derived hh)
 
 theorem hoverTx_node {j : Journal} {tx : Transaction} {c : Cur} {h : Hit}
     (ht : tx ∈ j.transactions) (hh : hoverTx c tx = some h) : hitNode j h := by
   unfold hoverTx at hh
   split at hh
   · simp at hh; subst hh
-    exact Or.inr (Or.inr (Or.inr (tx_range_mem ht (by simp [txRanges]))))
+    exact Or.inr (tx_range_mem ht (by simp [txRanges]))
   · simp only at hh
     split at hh
     · simp at hh; subst hh; exact Or.inl rfl
@@ -315,9 +310,7 @@ theorem hoverTx_node {j : Journal} {tx : Transaction} {c : Cur} {h : Hit}
       · rename_i h' hf
         simp at hh; subst hh
         obtain ⟨cm, _, hcm⟩ := List.exists_of_findSome?_eq_some hf
-        rcases findTag_kind hcm with h1 | h1
-        · exact Or.inr (Or.inl h1)
-        · exact Or.inr (Or.inr (Or.inl h1))
+        exact Or.inl (findTag_derived hcm)
       · obtain ⟨p, hp, hpp⟩ := List.exists_of_findSome?_eq_some hh
         exact hoverPosting_node ht hp hpp
 
@@ -326,29 +319,80 @@ theorem findElement_node {j : Journal} {c : Cur} {h : Hit}
   obtain ⟨tx, ht, htx⟩ := List.exists_of_findSome?_eq_some hh
   exact hoverTx_node ht htx
 
+theorem postingCommodities_mem {p : Posting} {cm : Commodity} (h : cm ∈ postingCommodities p) :
+    cm.range ∈ postingRanges p := by
+  simp only [postingCommodities, List.mem_append] at h
+  simp only [postingRanges, List.mem_append]
+  rcases h with (h | h) | h
+  · split at h
+    · rename_i a ha
+      simp at h; subst h
+      exact Or.inl (Or.inl (Or.inl (Or.inr (by simp [amountRanges, ha]))))
+    · simp at h
+  · split at h
+    · rename_i a ha
+      simp at h; subst h
+      exact Or.inl (Or.inl (Or.inr (by simp [amountRanges, ha])))
+    · simp at h
+  · split at h
+    · rename_i a ha
+      simp at h; subst h
+      exact Or.inl (Or.inr (by simp [amountRanges, ha]))
+    · simp at h
+
+theorem commodityAt_eq {c : Cur} {cm : Commodity} {h : Hit} (hh : commodityAt c cm = some h) :
+    h.rng = cm.range := by
+  unfold commodityAt at hh
+  split at hh
+  · simp at hh; subst hh; rfl
+  · simp at hh
+
 theorem defPosting_node {j : Journal} {tx : Transaction} {p : Posting} {c : Cur} {h : Hit}
     (ht : tx ∈ j.transactions) (hp : p ∈ tx.postings) (hh : defPosting c p = some h) : hitNode j h := by
   unfold defPosting at hh
   split at hh
-  · simp at hh; subst hh
-    exact Or.inr (Or.inr (Or.inr (posting_range_mem ht hp (by simp [postingRanges]))))
-  · split at hh
-    · rename_i a ha
-      split at hh
-      · simp at hh; subst hh
-        exact Or.inr (Or.inr (Or.inr (posting_range_mem ht hp (by simp [postingRanges, ha, amountRanges]))))
-      · simp at hh
+  · simp at hh; subst hh; exact Or.inl rfl
+  · obtain ⟨cm, hcm, hc⟩ := List.exists_of_findSome?_eq_some hh
+    rw [hitNode, commodityAt_eq hc]
+    exact Or.inr (posting_range_mem ht hp (postingCommodities_mem hcm))
+
+theorem defDirective_node {j : Journal} {d : Directive} {c : Cur} {h : Hit}
+    (hd : d ∈ j.directives) (hh : defDirective c d = some h) : hitNode j h := by
+  cases d with
+  | account a tags cmt sub r =>
+    simp only [defDirective] at hh
+    split at hh
+    · simp at hh; subst hh; exact Or.inl rfl
     · simp at hh
+  | commodity cm f n sub r =>
+    simp only [defDirective] at hh
+    split at hh
+    · simp at hh; subst hh; exact Or.inl rfl
+    · simp at hh
+  | price dt cm p r =>
+    simp only [defDirective] at hh
+    split at hh
+    · simp at hh; subst hh; exact Or.inl rfl
+    · rw [hitNode, commodityAt_eq hh]
+      exact Or.inr (dir_range_mem hd (by simp [directiveRanges, amountRanges]))
+  | year y r => simp [defDirective] at hh
+  | defaultCommodity sy f r => simp [defDirective] at hh
 
 theorem findDefinitionTarget_node {j : Journal} {c : Cur} {h : Hit}
     (hh : findDefinitionTarget j c = some h) : hitNode j h := by
-  obtain ⟨tx, ht, htx⟩ := List.exists_of_findSome?_eq_some hh
-  unfold defTx at htx
-  simp only at htx
-  split at htx
-  · simp at htx; subst htx; exact Or.inl rfl
-  · obtain ⟨p, hp, hpp⟩ := List.exists_of_findSome?_eq_some htx
-    exact defPosting_node ht hp hpp
+  unfold findDefinitionTarget at hh
+  split at hh
+  · rename_i h' hf
+    simp at hh; subst hh
+    obtain ⟨tx, ht, htx⟩ := List.exists_of_findSome?_eq_some hf
+    unfold defTx at htx
+    simp only at htx
+    split at htx
+    · simp at htx; subst htx; exact Or.inl rfl
+    · obtain ⟨p, hp, hpp⟩ := List.exists_of_findSome?_eq_some htx
+      exact defPosting_node ht hp hpp
+  · obtain ⟨d, hd, hdd⟩ := List.exists_of_findSome?_eq_some hh
+    exact defDirective_node hd hdd
 
 theorem earliest_mem {best : Option (Date × Rng)} {l : List (Date × Rng)} {x : Date × Rng}
     (h : earliest best l = some x) : best = some x ∨ x ∈ l := by
@@ -491,10 +535,10 @@ theorem sortAndDedup_sub {α} (l : List (α × LRange)) : ∀ x ∈ sortAndDedup
   intro x hx
   exact sortStart_sub _ x (dedupAdj_sub _ x hx)
 
-/-- Every reference location is the conversion of a hit that is a payee estimate or carries a
-    range stored in the tree. -/
+/-- Every reference location is the conversion of a hit that was computed by column arithmetic
+    or carries a range stored in the tree. -/
 theorem referenceHits_node {j : Journal} {t : Hit} {decl : Bool} {h : Hit}
-    (hh : h ∈ referenceHits j t decl) : h.kind = .payee ∨ h.rng ∈ nodeRanges j := by
+    (hh : h ∈ referenceHits j t decl) : hitNode j h := by
   unfold referenceHits at hh
   split at hh
   · simp only [List.mem_append, List.mem_flatMap, List.mem_map, List.mem_filter] at hh
@@ -504,36 +548,40 @@ theorem referenceHits_node {j : Journal} {t : Hit} {decl : Bool} {h : Hit}
         obtain ⟨d, hd, hdd⟩ := hh
         split at hdd
         · split at hdd
-          · simp at hdd; subst hdd; exact Or.inr (dir_range_mem hd (by simp [directiveRanges]))
+          · simp at hdd; subst hdd; exact Or.inl rfl
           · simp at hdd
         · simp at hdd
       · simp at hh
-    · exact Or.inr (posting_range_mem ht hp (by simp [postingRanges]))
-  · simp only [List.mem_append, List.mem_flatMap, List.mem_filterMap] at hh
-    rcases hh with hh | ⟨tx, ht, p, hp, hx⟩
-    · split at hh
-      · simp only [List.mem_filterMap] at hh
-        obtain ⟨d, hd, hdd⟩ := hh
+    · exact Or.inl rfl
+  · simp only [List.mem_append, List.mem_flatMap, List.mem_map, List.mem_filter] at hh
+    rcases hh with ⟨d, hd, hdd⟩ | ⟨tx, ht, p, hp, cm, ⟨hcm, _⟩, rfl⟩
+    · cases d with
+      | commodity cm f n sub r =>
+        simp only [commodityRefDirective] at hdd
         split at hdd
-        · split at hdd
-          · simp at hdd; subst hdd; exact Or.inr (dir_range_mem hd (by simp [directiveRanges]))
-          · simp at hdd
+        · simp at hdd; subst hdd; exact Or.inl rfl
         · simp at hdd
-      · simp at hh
-    · split at hx
-      · rename_i a ha
-        split at hx
-        · simp at hx; subst hx
-          exact Or.inr (posting_range_mem ht hp (by simp [postingRanges, ha, amountRanges]))
-        · simp at hx
-      · simp at hx
+      | price dt cm p r =>
+        simp only [commodityRefDirective, List.mem_append] at hdd
+        rcases hdd with hdd | hdd
+        · split at hdd
+          · simp at hdd; subst hdd; exact Or.inl rfl
+          · simp at hdd
+        · split at hdd
+          · simp at hdd; subst hdd
+            exact Or.inr (dir_range_mem hd (by simp [directiveRanges, amountRanges]))
+          · simp at hdd
+      | account a tags cmt sub r => simp [commodityRefDirective] at hdd
+      | year y r => simp [commodityRefDirective] at hdd
+      | defaultCommodity sy f r => simp [commodityRefDirective] at hdd
+    · exact Or.inr (posting_range_mem ht hp (postingCommodities_mem hcm))
   · simp only [List.mem_map, List.mem_filter] at hh
     obtain ⟨tx, _, rfl⟩ := hh
     exact Or.inl rfl
   · simp at hh
 
-theorem payeeSymbols_kind {seen : List Bytes} {txs : List Transaction} {h : Hit}
-    (hh : h ∈ payeeSymbols seen txs) : h.kind = .payee := by
+theorem payeeSymbols_derived {seen : List Bytes} {txs : List Transaction} {h : Hit}
+    (hh : h ∈ payeeSymbols seen txs) : h.derived = true := by
   induction txs generalizing seen with
   | nil => simp [payeeSymbols] at hh
   | cons tx rest ih =>
@@ -546,24 +594,24 @@ theorem payeeSymbols_kind {seen : List Bytes} {txs : List Transaction} {h : Hit}
     · exact ih hh
 
 theorem workspaceSymbolHits_node {j : Journal} {h : Hit} (hh : h ∈ workspaceSymbolHits j) :
-    h.kind = .payee ∨ h.rng ∈ nodeRanges j := by
+    hitNode j h := by
   simp only [workspaceSymbolHits, List.mem_append, List.mem_filterMap] at hh
   rcases hh with ⟨d, hd, hdd⟩ | hh
   · split at hdd
     · simp at hdd; subst hdd; exact Or.inr (dir_range_mem hd (by simp [directiveRanges]))
     · simp at hdd; subst hdd; exact Or.inr (dir_range_mem hd (by simp [directiveRanges]))
     · simp at hdd
-  · exact Or.inl (payeeSymbols_kind hh)
+  · exact Or.inl (payeeSymbols_derived hh)
 
-/-- Guard of a located element.  Payee estimates and the two halves of a tag are computed by
-    column arithmetic, not stored in the tree: the guard asks that the computed columns be
-    UTF-16-column positions of the text (this is what fails when a code, extra blanks or
-    `payee | note` surround the payee, or non-ASCII text precedes a tag).  Every other element
-    carries a range of the tree and needs `convGuard`. -/
+/-- Guard of a located element.  Payee estimates, the two halves of a tag and the `nameRange`s of
+    definition / references / rename are computed by column arithmetic, not stored in the tree:
+    the guard asks that the computed columns be UTF-16-column positions of the text (this is
+    what fails when a code, extra blanks or `payee | note` surround the payee, non-ASCII text
+    precedes a tag, the name holds a non-BMP rune while columns count runes, or a directive's
+    commodity is quoted).  Every other element carries a range of the tree and needs
+    `convGuard`. -/
 def hitGuard (utf16 : Bool) (doc : Txt) (h : Hit) : Bool :=
-  match h.kind with
-  | .payee | .tag | .tagValue => rngSound u16w doc h.rng && rngSmall h.rng
-  | _ => convGuard utf16 doc h.rng
+  if h.derived then rngSound u16w doc h.rng && rngSmall h.rng else convGuard utf16 doc h.rng
 
 theorem hit_rangeOK {utf16 : Bool} {doc : Txt} {j : Journal} {h : Hit}
     (ht : TreePositionsSound (unitOf utf16) doc j = true) (hn : hitNode j h)
@@ -572,13 +620,9 @@ theorem hit_rangeOK {utf16 : Bool} {doc : Txt} {j : Journal} {h : Hit}
   unfold hitNode at hn
   split at hg
   · simp only [Bool.and_eq_true] at hg; exact conv_rangeOK hg.1 hg.2
-  · simp only [Bool.and_eq_true] at hg; exact conv_rangeOK hg.1 hg.2
-  · simp only [Bool.and_eq_true] at hg; exact conv_rangeOK hg.1 hg.2
-  · rename_i h1 h2 h3
-    rcases hn with hn | hn | hn | hn
-    · exact absurd hn h1
-    · exact absurd hn h2
-    · exact absurd hn h3
+  · rename_i hd
+    rcases hn with hn | hn
+    · exact absurd hn hd
     · exact node_rangeOK ht hn hg
 
 /-! ### Laminar families -/
